@@ -164,7 +164,137 @@ print("HOLDS")
 '''
 
 
+HIST = r'''
+_ns = _get_ns("verif.c11")
+lisp_eval("(def ^:dynamic *a* :a0) (def ^:dynamic *b* :b0) (def ^:dynamic *c* :c0) (def plain :p0)"
+          " (def ^:dynamic *v* 0) (set-validator! (var *v*) (fn [x] (and (number? x) (>= x 0))))", "verif.c11")
+READ = lisp_eval("(fn [] [*a* *b* *c* plain *v*])", "verif.c11")
+class Stop(Exception):
+    pass
+# each program is one nested form; holes are filled with solver-chosen values; `probe` records what is visible at that point
+PROGRAMS = {
+  "nested-binding":      "(fn [x y z probe] (binding [*a* x] (probe 1) (binding [*a* y *b* z] (probe 2)) (probe 3)))",
+  "set!-innermost":      "(fn [x y z probe] (binding [*a* x] (binding [*a* y] (set! *a* z) (probe 1)) (probe 2)))",
+  "exception-unwinds":   "(fn [x y z probe] (try (binding [*a* x *b* y] (probe 1) (throw (python/ValueError \\"boom\\"))) (catch python/ValueError _ (probe 2))))",
+  "failed-binding-nondynamic": "(fn [x y z probe] (try (binding [*a* x *b* y plain z] (probe 1)) (catch python/Exception _ (probe 2))))",
+  "failed-binding-validator":  "(fn [x y z probe] (try (binding [*a* x *v* -1 *b* y] (probe 1)) (catch python/Exception _ (probe 2))))",
+  "with-bindings*":      "(fn [x y z probe] (with-bindings* {(var *a*) x (var *c*) y} (fn [] (probe 1))) (probe 2))",
+  "bound-fn-after-exit": "(fn [x y z probe] (let [f (binding [*a* x *b* y] (bound-fn* (fn [] (probe 1))))] (probe 2) (binding [*b* z] (f) (probe 3)) (probe 4)))",
+  "set!-then-leave":     "(fn [x y z probe] (binding [*a* x *b* y] (set! *b* z) (probe 1)) (probe 2))",
+}
+def expected(name, x, y, z):
+    A0, B0, C0, P0, V0 = kw.keyword("a0"), kw.keyword("b0"), kw.keyword("c0"), kw.keyword("p0"), 0
+    base = [A0, B0, C0, P0, V0]
+    def w(**kv):
+        r = list(base)
+        for k, v in kv.items():
+            r["abc".index(k)] = v
+        return r
+    return {
+      "nested-binding": [(1, w(a=x)), (2, w(a=y, b=z)), (3, w(a=x))],
+      "set!-innermost": [(1, w(a=z)), (2, w(a=x))],
+      "exception-unwinds": [(1, w(a=x, b=y)), (2, base)],
+      "failed-binding-nondynamic": [(2, base)],
+      "failed-binding-validator": [(2, base)],
+      "with-bindings*": [(1, w(a=x, c=y)), (2, base)],
+      "bound-fn-after-exit": [(2, base), (1, w(a=x, b=y)), (3, w(b=z)), (4, base)],
+      "set!-then-leave": [(1, w(a=x, b=z)), (2, base)],
+    }[name]
+def run_program(name, x, y, z):
+    seen = []
+    def probe(i):
+        seen.append((i, list(READ())))
+    F_PROG(x, y, z, probe)
+    after = list(READ())
+    return seen, after
+def DIAG(**k):
+    try:
+        return {"observed": repr(run_program(NAME, k["x"], k["y"], k["z"])), "expected": repr(expected(NAME, k["x"], k["y"], k["z"]))}
+    except Exception as e:
+        return {"error": repr(e)}
+'''
+
+
+def history_specs(timeout):
+    from ..chx.driver import Spec
+    from ..chx.lisp import harness
+    import re
+    names = re.findall(r'^  "([^"]+)":', HIST, flags=re.M)
+    names = sorted(set(names), key=names.index)[:8]
+    out = []
+    for nm in names:
+        body = '''    seen, after = run_program(NAME, x, y, z)
+    base = [kw.keyword("a0"), kw.keyword("b0"), kw.keyword("c0"), kw.keyword("p0"), 0]
+    # inside: what the nesting prescribes; after the outermost form has been left: exactly what was visible before it
+    return seen == expected(NAME, x, y, z) and after == base'''
+        out.append(Spec(f"binding-forms/{nm}", harness("x: int, y: int, z: int", body, module_code=HIST.replace("\\\\", "\\") + f"\nNAME = {nm!r}\nF_PROG = lisp_eval(PROGRAMS[NAME], \"verif.c11\")\n", warm=[(1, 2, 3)]),
+                        timeout=timeout, bound="bound values are symbolic ints; the nesting shape is one of 8 programs", meta={"kind": "binding-forms", "program": nm}))
+    return out
+
+
+THREADS_SCRIPT = r'''
+import threading, importlib
+import basilisp.main as _m
+_m.init()
+from basilisp.lang import compiler as cc, reader as rd, runtime as rt, symbol as sym
+ns = rt.Namespace.get_or_create(sym.symbol("verif.c11t")); ns.refer_all(rt.Namespace.get_or_create(rt.CORE_NS_SYM))
+sys.modules.setdefault(ns.module.__name__, ns.module)
+def ev(src):
+    with rt.ns_bindings("verif.c11t"):
+        ctx = cc.CompilerContext("<t>"); last = None
+        for f in rd.read_str(src, resolver=rt.resolve_alias): last = cc.compile_and_exec_form(f, ctx, ns)
+        return last
+ev("(def ^:dynamic *d* :root)")
+bad = []
+# 1. a binding made in one thread is invisible in another, at every point of its lifetime
+inside, go = threading.Event(), threading.Event()
+seen = []
+def other():
+    inside.wait(5); seen.append(ev("*d*")); go.set()
+t = threading.Thread(target=other); t.start()
+hold = ev("(fn [inside go] (binding [*d* :bound] (.set inside) (.wait go 5) (set! *d* :changed) *d*))")
+r = hold(inside, go); t.join(5)
+if seen != [ev(":root")] or r != ev(":changed") or ev("*d*") != ev(":root"):
+    bad.append(("thread-isolation", seen, r))
+# 2. future, pmap and bound-fn run with the bindings in effect where they were created, and do not leak back
+r = ev("(binding [*d* :conveyed] [(deref (future *d*)) (vec (pmap (fn [_] *d*) [1 2])) (let [f (bound-fn [] *d*) p (promise)] (.start (threading/Thread ** :target (fn [] (deliver p (f))))) (deref p 5 :timeout))])") if False else None
+ev("(import threading)")
+r = ev("(binding [*d* :conveyed] [(deref (future *d*)) (vec (pmap (fn [_] *d*) [1 2])) (let [f (bound-fn [] *d*) p (promise)] (doto (threading/Thread ** :target (fn [] (deliver p (f)))) (.start)) (deref p 5 :timeout))])")
+want = ev("[:conveyed [:conveyed :conveyed] :conveyed]")
+if r != want:
+    bad.append(("conveyance", r))
+r2 = ev("[(deref (future *d*)) *d*]")
+if r2 != ev("[:root :root]"):
+    bad.append(("leak-after-conveyance", r2))
+if bad:
+    print("REPRODUCED: dynamic bindings across threads:", bad); sys.exit(1)
+print("HOLDS")
+'''
+
+
 def run(rep, tier, seed):
+    from ..chx.flow import run_specs
+    only = getattr(rep, "only", None)
+    if only is None or "binding-forms" in only:
+        rep.encoded_lisp("src/basilisp/core.lpy", ["binding", "with-bindings*", "bound-fn*", "set!", "push-thread-bindings", "pop-thread-bindings"],
+                         "compiled from source, executed under CrossHair with symbolic bound values")
+        run_specs(rep, history_specs(60 if tier == "quick" else 300), lambda s_, c: {"kind": "binding-forms", "program": s_.meta["program"]},
+                  lambda s_, c: f"{s_.name}: {c}")
+    if only is None or "threads" in only:
+        import time as _t
+        t0 = _t.time()
+        path = env.write_replay(rep.prop, "threads", THREADS_SCRIPT)
+        ok, line = env.replay_reproduces(path, timeout=300)
+        r_ = Result("threads/isolation+conveyance (concrete run)", INCONCLUSIVE, engine="concrete run (not solver-decided)", secs=_t.time() - t0,
+                    bound="2 threads; binding visible only in its thread; future / pmap / bound-fn convey; no leak afterwards")
+        if ok:
+            r_.verdict, r_.replay, r_.detail = REFUTED, path, line[:300]
+            rep.classify_refutation(r_, {"kind": "threads"}, line[:200])
+        elif "holds" in line:
+            r_.verdict, r_.detail = PROVED, "one concrete run"
+        else:
+            r_.detail = line[:300]
+        rep.add(r_)
     rep.encoded(RT, ["push_thread_bindings", "pop_thread_bindings", "Var.push_bindings", "Var.pop_bindings", "Var.dynamic",
                      "_ThreadBindings.push_bindings", "_ThreadBindings.pop_bindings"], "PySym (AST interpreted, symbolic map iteration order)")
     rep.encoded(REF, ["RefBase._validate"], "PySym (validator verdict symbolic)")
@@ -172,7 +302,8 @@ def run(rep, tier, seed):
     jobs = []
     for n in ([1, 2] if quick else [1, 2, 3]):
         for prop in ("push", "push-pop"):
-            jobs.append((n, prop))
+            if only is None or "kernel" in only:
+                jobs.append((n, prop))
     results = run_parallel([(lambda n=n, p=p: check(scenario(n, p), mk_interp, timeout_s=300, max_paths=40000)) for n, p in jobs])
     for (n, prop), r in zip(jobs, results):
         rep.solver_s += r["stats"]["solver_s"]
@@ -206,8 +337,8 @@ def run(rep, tier, seed):
         rep.add(res)
     rep.bounds = {"vars_per_binding_form": "1-2 (quick) / 1-3 (thorough)", "iteration order": "all permutations (solver choice)",
                   "prior stack depth": "0..2 per Var"}
-    rep.outside = ["cross-thread visibility and conveyance to futures (threading.local and executors are environment)",
-                   "the `binding` macro's try/finally (covered by C01-style compilation checks only)"]
+    rep.outside = ["cross-thread visibility and conveyance under *all* interleavings (threading.local and executors are environment): "
+                   "one concrete two-thread run is executed instead and labelled as such"]
     rep.assumptions += ["lset.set / the frame stack vector behave as a set / stack", "validator verdict is an arbitrary boolean per Var"]
     rep.trusted += ["z3 5.1.0", "vlib/pysym"]
     rep.extra["explanation"] = ("one push (and push-then-pop) step from an arbitrary valid pre-state; the order in which the binding map is "
